@@ -131,6 +131,9 @@ def nearestMultipleShortestRepr(value: float, factor: float) -> str:
         return "0.0"
 
     value = otRound(value / factor) * factor
+    if not value:
+        # a non-zero value closer to zero than half a step
+        return "0.0"
     eps = 0.5 * factor
     lo = value - eps
     hi = value + eps
